@@ -78,14 +78,29 @@ class C20(Prop):
             'full-update event must follow an accepted PUT /ports; then corrupted documents for PUT /ports, PUT /devices '
             '(k-th entry: missing host/port/scheme, wrong types) and PUT /device, each followed by the polling/event probe; one '
             'corrupted document (wrong attribute type / unparsable expression / bad definition in the k-th entry); '
+            'peripherals (70% of the cases; one static peripheral from the settings on every hub): 1-4 non-static ones POSTed on '
+            'the source — named, unnamed with an explicit id, unnamed with neither (auto id), name and id both given; relay '
+            'boards with 1-2 ports whose attributes (enabled, tag, display_name, driver-defined hold) and values are edited, and '
+            'parameterless port-less beacons; nested/optional parameters — the target deletes some, edits the ports of the rest '
+            '(persisted), adds others incl. the same name/id with another board; backup = + GET /peripherals, restore = PUT '
+            '/device, /peripherals, /devices, /ports (twice); then a corrupted peripherals document (k-th entry: unknown driver, '
+            'missing constructor argument, value refused by the driver, id of an earlier entry, name of an earlier entry) followed '
+            'by the polling/event probe; '
             'non-trivial: source and target differ in >= 1 port set member and >= 1 attribute and the source has an '
             'expression; distinct = distinct source documents')
     CORRESPONDENCE = ('Backup.putPorts/putBody/restoreOn <-> core/api/funcs/ports.py put_ports (+ add_virtual_port, '
-                      'set_port_attrs); restore_roundtrip is checked as GET-after-PUT == GET-before on the real hub')
+                      'set_port_attrs); restore_roundtrip is checked as GET-after-PUT == GET-before on the real hub; '
+                      'Peripherals.putPeripherals <-> peripherals/api/funcs.py put_peripherals (+ peripherals.add/remove, '
+                      'Peripheral.__init__/to_json): outcome (ok / which entry failed and how), registry afterwards in order '
+                      '(id, static, name, parameters) and which peripherals have their ports, for the restore and for the '
+                      'corrupted document')
     TRUSTED = ['in-process hub (startup.init_* sequence, in-memory JSON store, virtual time); instrumented static ports']
     ASSUMPTIONS = ['source and target run the same static configuration (same settings.ports)',
                    'values are compared for enabled ports without expression whose transforms are mutually inverse',
-                   'slave devices are disabled (no network); GET/PUT /peripherals is not exercised',
+                   'slave devices are disabled (no network)',
+                   'peripheral drivers are the two of harness/periph_c20.py (init_ports never fails); the model\'s auto id is '
+                   'not compared (GET documents always carry the id); a bare exception from PUT /peripherals is the known '
+                   'finding C20-put-peripherals-failing-entry-unnamed: asserted by one corpus case, tagged elsewhere',
                    'password hashes are not part of a backup: the target keeps its own']
 
     def setup(self):
